@@ -557,6 +557,15 @@ func ServiceCases() []*Case {
 		}
 		out = append(out, &Case{ID: "service:named-like-generated-message:" + shape, Family: "services", Coord: "services|named-like-generated-message", P: &Program{Files: files}})
 	}
+	// package names with a component that is also the first component of an imported package
+	for _, dir := range []string{"acme/google/v1", "acme/j5/v1", "buf/shop/v1"} {
+		f := file(dir, "a")
+		f.Add(&Service{Name: "Thing", BasePath: "/x/v1", Methods: []*Method{
+			{Name: "Raw", Verb: "GET", Path: "/raw"},
+			{Name: "Ping", Verb: "POST", Path: "/ping", Request: []*Field{fld("v", T(TString)), fld("when", T(TTimestamp)), fld("id", T(TKeyID62))}, HasResponse: true, Response: []*Field{fld("w", T(TDate))}},
+		}})
+		out = append(out, &Case{ID: "service:package-component-like-import:" + dir, Family: "services", Coord: "services|package-component-like-import", P: &Program{Files: []*File{f}}})
+	}
 	// a method named like the response / request message another method generates
 	for _, other := range []string{"PingResponse", "PingRequest"} {
 		f := file("t/v1", "a")
